@@ -330,8 +330,19 @@ def run(prog, ctx):
     rl = prog.func(SD + ".raise_lmax")
     ctx.touch(rl)
     tml = Terms(rl.node, max_depth=0)
+    crl = cfg_of(rl)
+    # ... and does so on EVERY normal path (no option may switch the raise off: lmax[d] >= deepest level is unconditional)
     okrl = any(s.kind == "elem_aug" and isinstance(s.stmt.op, ast.Add) and tml.term(s.stmt.target.slice) == ("n", rl.params[1])
-               and tml.term(s.value) == ("n", rl.params[2]) for s in R.self_stores(rl, "lmax"))
+               and tml.term(s.value) == ("n", rl.params[2]) and crl.must_pass_through(crl.entry, [crl.exit], [crl.node_of(s.stmt)])
+               for s in R.self_stores(rl, "lmax"))
+    # the coarsening levels are computed from the levels that remain: no rebalancing (which rotates levels in place) after the update
+    rbs = [R.cfg_node(rp, x) for x in R.calls_in(rp.node, method="rebalance")]
+    upn = [R.cfg_node(rp, x) for x in ups]
+    late = [rb for rb in rbs for u in upn if rb.idx in crp.reachable_after(u)]
+    ctx.check(not late, "C06.D4", R.key_of(rp, "update-after-rebalancing"), rp.loc(late[0].ast) if late else rp.loc(),
+              "the coarsening levels / lmax are updated after the rebalancing of the step, never before it",
+              "refinement_postprocessing can rebalance a dimension (line %s) after update_coarsening_values ran: the rotation changes point "
+              "levels in place, the coarsening levels and lmax computed before it are stale" % (late[0].ast.lineno if late else 0))
     ctx.check(okrl, "C06.D4", R.key_of(rl, "raises-by-deficit"), rl.loc(), "raise_lmax adds exactly the given value to lmax[d]",
               "raise_lmax does not add exactly `%s` to self.lmax[%s]: lmax and the coarsening levels (raised by the true deficit) drift apart"
               % (rl.params[2], rl.params[1]))
